@@ -23,14 +23,23 @@ def main():
         if path == "-":
             continue
         doc = json.load(open(path, "rb"))
-        spec = model.create_lsp_model([doc])
+        try:
+            spec = model.create_lsp_model([doc])
+        except Exception:
+            if path == b_path:
+                raise
+            continue
         if k:
             spec.requests = list(spec.requests)[:k]
             spec.notifications = list(spec.notifications)[:k]
         os.makedirs(out, exist_ok=True)
         td = os.path.join(out, "__tests__")
         os.makedirs(td, exist_ok=True)
-        mod.generate(spec, out, td)
+        try:
+            mod.generate(spec, out, td)
+        except Exception:
+            if path == b_path:
+                raise  # only the FIRST generation may fail (history "after a failed run"); the second is the one under test
 
 
 if __name__ == "__main__":
